@@ -13,6 +13,7 @@ class C03(Prop):
     lean_modules = ["Pfb.C03.Props", "Pfb.C03.Lines"]
     theorems = [
         "Pfb.C03.C03_future_first",
+        "Pfb.C03.C03_future_joins_future_block",
         "Pfb.C03.prefixMatch_pos_head",
         "Pfb.C03.C03_new_block_after_prologue",
         "Pfb.C03.C03_new_block_before_first_import",
